@@ -524,8 +524,11 @@ def restoreEntry (fl : XFlags) (umask : Nat) (e : Entry) (name : List Nat) (es :
           | .err _ => pure (some .failed, en, es)
           | _ => do let (en, es) ← createObject fl umask e name es; pure (none, en, es)
         else
-          -- "There's a dir in the way of a dir."
-          pure (none, none, if es.mode ≠ s.mode ∧ es.modeForce then { es with defMode := es.defMode || es.todoMode } else es)
+          -- "There's a dir in the way of a dir."  Its mode is fixed up at close when PERM asks for it;
+          -- its times are deferred like those of a newly made directory ("Restoring the children will
+          -- touch this dir just as it touches a newly created one").
+          let es1 := if es.mode ≠ s.mode ∧ es.modeForce then { es with defMode := es.defMode || es.todoMode } else es
+          pure (none, none, { es1 with defTimes := es1.defTimes || es1.todoTimes, todoTimes := false })
       | _ => pure (some .failed, en, es)     -- "Can't stat existing object"
     else pure (none, en, es)
   let (early, en, es) ← step
